@@ -1311,19 +1311,34 @@ static void gen_stmt(Node *node) {
     gen_expr(node->cond);
 
     for (Node *n = node->case_next; n; n = n->case_next) {
-      char *ax = (node->cond->ty->size == 8) ? "%rax" : "%eax";
-      char *di = (node->cond->ty->size == 8) ? "%rdi" : "%edi";
+      bool wide = node->cond->ty->size == 8;
+      char *ax = wide ? "%rax" : "%eax";
+      char *di = wide ? "%rdi" : "%edi";
+      char *cx = wide ? "%rcx" : "%ecx";
+
+      // Case labels are converted to the promoted type of the controlling
+      // expression. An immediate operand is a sign-extended 32-bit value,
+      // so a wider label goes through a register.
+      long begin = wide ? n->begin : (int)n->begin;
+      long diff = wide ? n->end - n->begin : (long)(unsigned)(n->end - n->begin);
 
       if (n->begin == n->end) {
-        println("  cmp $%ld, %s", n->begin, ax);
+        if (begin == (int)begin) {
+          println("  cmp $%ld, %s", begin, ax);
+        } else {
+          println("  mov $%ld, %s", begin, cx);
+          println("  cmp %s, %s", cx, ax);
+        }
         println("  je %s", n->label);
         continue;
       }
 
       // [GNU] Case ranges
       println("  mov %s, %s", ax, di);
-      println("  sub $%ld, %s", n->begin, di);
-      println("  cmp $%ld, %s", n->end - n->begin, di);
+      println("  mov $%ld, %s", begin, cx);
+      println("  sub %s, %s", cx, di);
+      println("  mov $%ld, %s", diff, cx);
+      println("  cmp %s, %s", cx, di);
       println("  jbe %s", n->label);
     }
 
